@@ -128,7 +128,7 @@ use eyre::{bail, ensure, Result};
 use smallvec::SmallVec;
 use zerocopy::IntoBytes;
 
-use super::interior::{InteriorNode, InteriorNodeMut, INTERIOR_SLOT_SIZE};
+use super::interior::{InteriorNode, InteriorNodeMut, INTERIOR_CONTENT_START, INTERIOR_SLOT_SIZE};
 use super::leaf::{LeafNode, LeafNodeMut, SearchResult, Slot, LEAF_CONTENT_START, SLOT_SIZE};
 use crate::encoding::varint::{encode_varint, varint_len};
 use crate::storage::{Freelist, MmapStorage, PageHeader, PageType, Storage, PAGE_SIZE};
@@ -1135,7 +1135,35 @@ impl<'a, S: Storage> BTree<'a, S> {
             all_children.insert(insert_pos + 1, new_right_child);
         }
 
-        let mid = all_separators.len() / 2;
+        // Split by BYTES, not by count: with separators of very different lengths the half that
+        // receives the long ones may not fit a page.  Take the fitting split point nearest to the
+        // middle and refuse (before touching any page) when there is none.
+        let sizes: BumpVec<usize> = all_separators
+            .iter()
+            .map(|s| s.len() + INTERIOR_SLOT_SIZE)
+            .collect_in(&arena);
+        let capacity = PAGE_SIZE - INTERIOR_CONTENT_START;
+        let total: usize = sizes.iter().sum();
+        let half = all_separators.len() / 2;
+        let mut best: Option<usize> = None;
+        let mut left = 0usize;
+        for m in 0..all_separators.len() {
+            let right = total - left - sizes[m];
+            if left <= capacity && right <= capacity {
+                let better = match best {
+                    Some(b) => m.abs_diff(half) < b.abs_diff(half),
+                    None => true,
+                };
+                if better {
+                    best = Some(m);
+                }
+            }
+            left += sizes[m];
+        }
+        let mid = match best {
+            Some(m) => m,
+            None => bail!("separators too large: no split point fits both interior halves"),
+        };
         let promoted_separator = all_separators[mid].to_vec();
 
         {
